@@ -20,7 +20,8 @@ type scriptedConsumer struct {
 	low, high    map[int32]int64
 	wmErr        map[int32]bool
 	assignErr    bool
-	partitions   int // for GetMetadata
+	unassignErr  bool // Unassign reports a failure (after having been recorded)
+	partitions   int  // for GetMetadata
 	events       chan kafka.Event
 	calls        []string // "assign p:o,..." | "unassign"
 	lastAssign   []kafka.TopicPartition
@@ -33,7 +34,7 @@ func newScriptedConsumer() *scriptedConsumer {
 }
 
 func (s *scriptedConsumer) Subscribe(string, kafka.RebalanceCb) error { return nil }
-func (s *scriptedConsumer) Events() chan kafka.Event                   { return s.events }
+func (s *scriptedConsumer) Events() chan kafka.Event                  { return s.events }
 func (s *scriptedConsumer) Assign(p []kafka.TopicPartition) error {
 	s.mu.Lock()
 	defer s.mu.Unlock()
@@ -59,6 +60,9 @@ func (s *scriptedConsumer) Unassign() error {
 	s.assigned = false
 	s.cursor = map[int32]int64{}
 	s.calls = append(s.calls, "unassign")
+	if s.unassignErr {
+		return errors.New("scripted unassign failure")
+	}
 	return nil
 }
 func (s *scriptedConsumer) Committed(ps []kafka.TopicPartition, _ int) ([]kafka.TopicPartition, error) {
@@ -114,8 +118,9 @@ type recordingContext struct {
 	sendErr bool
 }
 
-func (c *recordingContext) ConfigureMessaging(send fbcontext.MessageFunc, ack fbcontext.MessageFunc) {}
-func (c *recordingContext) ConfigureLeader(leader func() bool)                                      {}
+func (c *recordingContext) ConfigureMessaging(send fbcontext.MessageFunc, ack fbcontext.MessageFunc) {
+}
+func (c *recordingContext) ConfigureLeader(leader func() bool) {}
 func (c *recordingContext) SendMessage(msg fbcontext.Message) error {
 	c.mu.Lock()
 	defer c.mu.Unlock()
